@@ -6,10 +6,11 @@ Reads /tmp/mut2_<Cxx>_out/<mN>/{patch.diff,demo.py,notes.md}, the first evaluati
 /tmp/muteval/w2b_<Cxx>_<mN>*.json made after the machinery was strengthened (checks only)."""
 import glob, json, os, shutil, sys
 
+W = os.environ.get("WAVE", "2")  # wave number: /tmp/mut<W>_<Cxx>_out, /tmp/muteval/w<W>[b]_<Cxx>_<mN>.json
 pid, name, need = sys.argv[1], sys.argv[2], sys.argv[3]
 history = sys.argv[4] if len(sys.argv) > 4 else ""
-src = "/tmp/mut2_%s_out/%s" % (pid, name)
-ev = json.load(open("/tmp/muteval/w2_%s_%s.json" % (pid, name)))
+src = "/tmp/mut%s_%s_out/%s" % (W, pid, name)
+ev = json.load(open("/tmp/muteval/w%s_%s_%s.json" % (W, pid, name)))
 ok = (ev.get("demo_without_patch_exit") == 0 and ev.get("demo_with_patch_exit") == 1
       and "passed" in (ev.get("tests_tail") or "") and "failed" not in (ev.get("tests_tail") or ""))
 if not ok:
@@ -18,14 +19,14 @@ if not ok:
 first = {k: dict(exit=v["exit"], violations=v["violations"], first_signatures=v["signatures"][:3])
          for k, v in ev.get("checks", {}).items()}
 final = dict(first)
-for f in sorted(glob.glob("/tmp/muteval/w2b_%s_%s*.json" % (pid, name))):
+for f in sorted(glob.glob("/tmp/muteval/w%sb_%s_%s*.json" % (W, pid, name))):
     try:
         e2 = json.load(open(f))
     except Exception:
         continue
     for k, v in e2.get("checks", {}).items():
         final[k] = dict(exit=v["exit"], violations=v["violations"], first_signatures=v["signatures"][:3])
-dst = os.path.join(os.path.dirname(os.path.dirname(os.path.abspath(__file__))), "seeded", "%s-w2%s" % (pid, name))
+dst = os.path.join(os.path.dirname(os.path.dirname(os.path.abspath(__file__))), "seeded", "%s-w%s%s" % (pid, W, name))
 os.makedirs(dst, exist_ok=True)
 for f in ("patch.diff", "demo.py", "notes.md"):
     if os.path.exists(os.path.join(src, f)):
@@ -34,7 +35,7 @@ missed_first = sorted(k for k, v in first.items() if v["exit"] == 0 and final[k]
 if missed_first and not history:
     history = "missed at first by %s; caught after the machinery was strengthened" % ", ".join(missed_first)
 meta = dict(
-    property=pid, wave=2,
+    property=pid, wave=int(W),
     origin="independent sub-agent given only the property text, the list of earlier seeded changes and a scratch worktree",
     needs_to_manifest=need,
     confirmed_by=dict(
